@@ -353,6 +353,17 @@ pub fn run(ctx: &Ctx) -> Result<()> {
 				col.out.line(&format!("json.cls {} => {}", cps(&t), match r { Ok(Ok(_)) => "ok", Ok(Err(_)) => "err", Err(_) => "panic" }));
 			}
 		}
+		for i in 0..(if ctx.thorough { 8000 } else { 800 }) {
+			let base = *rng.pick(&CSVS);
+			let bytes = if i % 9 == 0 { base.as_bytes().to_vec() } else { mutate_text(&mut rng, base) };
+			if bytes.len() > 200 { continue; }
+			let r = guarded(|| { let mut rows: Vec<Vec<String>> = vec![]; let mut st = "ok";
+				match versatiles_core::utils::read_csv_iter(std::io::Cursor::new(bytes.clone()), b',') { Ok(it) => { for item in it { match item { Ok((f, _, _)) => rows.push(f), Err(_) => { st = "err"; break; } } } } Err(_) => st = "err" }
+				(rows, st) });
+			let hx = |s: &str| if s.is_empty() { "-".to_string() } else { hex(s.as_bytes()) };
+			let txt = match r { Ok((rows, st)) => { let t = rows.iter().map(|f| f.iter().map(|x| hx(x)).collect::<Vec<_>>().join(";")).collect::<Vec<_>>().join("|"); format!("{} {st}", if t.is_empty() { ".".into() } else { t }) } Err(_) => "panic".into() };
+			col.out.line(&format!("csv {} => {}", if bytes.is_empty() { "-".into() } else { hex(&bytes) }, txt));
+		}
 		crate::pmcorr::malformed_lines(&mut col, &mut rng, if ctx.thorough { 3000 } else { 300 });
 	}
 	col.finish()
